@@ -61,6 +61,7 @@ pub fn op_alphabet() -> Vec<Op> {
         Op::Infix("+", 110, true, "A"),
         Op::Infix("+", 130, true, "B"),
         Op::Infix("/", 120, false, "A"),
+        Op::Infix("~=", 105, true, "A"),
         Op::Postfix("npo", "A"),
         Op::Postfix("++", "A"),
     ]
@@ -153,6 +154,8 @@ const PROBES: &[&str] = &[
     "x = 1 ; x hi 2",
     "[nf(), min(1), 2 hi 3]",
     "1 not hi 2",
+    "1 ~= 2",
+    "1 ~= 2 + 3 ~= 4",
     "1 hi (2 hi 3)",
     "(1 hi 2) hi 3",
     "(1 + 2) hi 3",
